@@ -164,3 +164,49 @@ class Report:
 
 def _slug(s: str) -> str:
     return ''.join(c if c.isalnum() or c in '-_.' else '_' for c in s)[:100]
+
+
+def cross_solver(samples: List[tuple], limit: int = 12, timeout_s: int = 20) -> dict:
+    """Re-pose sampled queries (SMT-LIB2 text, z3-5.1 verdict) to /usr/bin/z3 4.8.12 and the cvc5 1.0.3 binary.
+
+    A definite disagreement (sat vs unsat) or an `(error` line is reported; unknown / timeout is counted as undecided."""
+    import random
+    import shutil
+    import tempfile
+
+    rng = random.Random(seed())
+    if len(samples) > limit:
+        samples = rng.sample(samples, limit)
+    out = {'sampled': len(samples), 'z3_4_8_12': {'agree': 0, 'undecided': 0}, 'cvc5_1_0_3': {'agree': 0, 'undecided': 0}, 'disagreements': []}
+    if not samples:
+        return out
+    d = tempfile.mkdtemp(prefix='fsic_smt_')
+    try:
+        for i, (text, verdict) in enumerate(samples):
+            path = os.path.join(d, f'q{i}.smt2')
+            with open(path, 'w') as f:
+                f.write('(set-logic ALL)\n' + text if '(set-logic' not in text else text)
+            for name, cmd in (('z3_4_8_12', ['/usr/bin/z3', f'-T:{timeout_s}', path]),
+                              ('cvc5_1_0_3', ['cvc5', f'--tlimit={timeout_s * 1000}', '--fp-exp', path])):
+                if not shutil.which(cmd[0]):
+                    out[name]['undecided'] += 1
+                    continue
+                try:
+                    p = subprocess.run(cmd, capture_output=True, text=True, timeout=timeout_s + 10)
+                    txt = (p.stdout + p.stderr).strip()
+                except subprocess.TimeoutExpired:
+                    txt = 'timeout'
+                first = txt.splitlines()[0].strip() if txt else ''
+                if '(error' in txt and first not in ('sat', 'unsat'):
+                    out[name]['undecided'] += 1
+                    out.setdefault('errors', []).append(f'{name}: {txt[:160]}')
+                elif first in ('sat', 'unsat'):
+                    if first == verdict:
+                        out[name]['agree'] += 1
+                    else:
+                        out['disagreements'].append({'solver': name, 'said': first, 'z3_5_1_said': verdict, 'query': i})
+                else:
+                    out[name]['undecided'] += 1
+    finally:
+        shutil.rmtree(d, ignore_errors=True)
+    return out
